@@ -139,7 +139,10 @@ Inductive xcase :=
    machine must give the same observations; base: what the real innermost store received and kept (when has_base) *)
 | XHist (k : skind) (ops : list xop) (expect : list (list N)) (spec_too : bool) (has_base : bool) (base : list (N * bytes))
 (* PlainBlobStore with close + reopen steps, and the real directory listing at the end *)
-| XPlain (ops : list pop) (expect : list (list N)) (dir : dirmap).
+| XPlain (ops : list pop) (expect : list (list N)) (dir : dirmap)
+(* PlainBlobStore::new on a directory that already holds record files, then a history; the first observation is that of
+   new(): [1], or [0] when it panicked *)
+| XPlainOpen (m : dirmap) (ops : list pop) (expect : list (list N)) (dir : dirmap).
 
 Definition check_xcase (x : xcase) : bool :=
   match x with
@@ -152,4 +155,9 @@ Definition check_xcase (x : xcase) : bool :=
   | XPlain ops expect dir =>
       eqb_lln (plain_prun plain_create ops) expect
       && dir_agrees (p_dir (plain_pexec plain_create ops)) dir
+  | XPlainOpen m ops expect dir =>
+      match plain_open m with
+      | Some st => eqb_lln ([1] :: plain_prun st ops) expect && dir_agrees (p_dir (plain_pexec st ops)) dir
+      | None => eqb_lln [[0]] expect
+      end
   end.
